@@ -208,4 +208,83 @@ theorem resumeRun_eq_oneShotO (P : Parser σ) (Inv : Buf → Nat → σ → Prop
       obtain ⟨s, rfl⟩ := hext x hx
       exact (hP b s o st o1 s1 hI hp).1
 
+/-! ### exact on the verdicts after which parsing goes on, up to observation on error verdicts -/
+
+/-- the verdicts after which the caller goes on using the object (everything else is an error) -/
+def Err.goesOn (e : Err) : Prop := e = .ok ∨ e = .moreBytes ∨ e = .moreValues ∨ e = .empty
+
+/-- same offset, same verdict; the same object whenever the verdict is not an error, and the same observable
+    object in any case -/
+def RR (obs : σ → τ) (r1 r2 : Nat × Err × σ) : Prop :=
+  r1.1 = r2.1 ∧ r1.2.1 = r2.2.1 ∧ (Err.goesOn r2.2.1 → r1.2.2 = r2.2.2) ∧ obs r1.2.2 = obs r2.2.2
+
+theorem RR.refl (obs : σ → τ) (r : Nat × Err × σ) : RR obs r r := ⟨rfl, rfl, fun _ => rfl, rfl⟩
+
+theorem RR.of_eq {obs : σ → τ} {r1 r2 : Nat × Err × σ} (h : r1 = r2) : RR obs r1 r2 := by
+  subst h; exact RR.refl _ _
+
+theorem RR.trans {obs : σ → τ} {r1 r2 r3 : Nat × Err × σ} (h1 : RR obs r1 r2) (h2 : RR obs r2 r3) :
+    RR obs r1 r3 :=
+  ⟨h1.1.trans h2.1, h1.2.1.trans h2.2.1,
+   fun hg => (h1.2.2.1 (by rw [h2.2.1]; exact hg)).trans (h2.2.2.1 hg), h1.2.2.2.trans h2.2.2.2⟩
+
+theorem RR.resEq {obs : σ → τ} {r1 r2 : Nat × Err × σ} (h : RR obs r1 r2) : ResEq obs r1 r2 :=
+  ⟨h.1, h.2.1, h.2.2.2⟩
+
+/-- exact equality when the fresh result's verdict is not an error -/
+theorem RR.eq {obs : σ → τ} {r1 r2 : Nat × Err × σ} (h : RR obs r1 r2) (hg : Err.goesOn r2.2.1) : r1 = r2 := by
+  obtain ⟨a1, e1, s1⟩ := r1
+  obtain ⟨a2, e2, s2⟩ := r2
+  obtain ⟨h1, h2, h3, _⟩ := h
+  simp only at h1 h2 h3 hg
+  rw [h1, h2, h3 hg]
+
+def ResumableR (P : Parser σ) (Inv : Buf → Nat → σ → Prop) (obs : σ → τ) : Prop :=
+  ∀ b s o st o' st', Inv b o st → P b o st = (o', Err.moreBytes, st') →
+    RR obs (P (b ++ s) o' st') (P (b ++ s) o st) ∧ Inv (b ++ s) o' st'
+
+theorem oneShotRun_congrR (P : Parser σ) (obs : σ → τ) (o o' : Nat) (st st' : σ) (l : List Buf) (hl : l ≠ [])
+    (h : ∀ x ∈ l, RR obs (P x o' st') (P x o st)) :
+    RR obs (oneShotRun P o' st' l) (oneShotRun P o st l) := by
+  induction l with
+  | nil => exact absurd rfl hl
+  | cons b rest ih =>
+    cases rest with
+    | nil => simp only [oneShotRun]; exact h b (List.mem_cons_self)
+    | cons b' rest' =>
+      simp only [oneShotRun]
+      have hb := h b List.mem_cons_self
+      rcases hp : P b o st with ⟨o1, e1, s1⟩
+      rcases hp' : P b o' st' with ⟨o2, e2, s2⟩
+      rw [hp, hp'] at hb
+      have he : e2 = e1 := hb.2.1
+      subst he
+      have ih' := ih (by simp) (fun x hx => h x (List.mem_cons_of_mem _ hx))
+      cases e2 <;> first | exact hb | exact ih'
+
+/-- **schedule theorem (exact / up to observation)**: for every growing sequence of prefixes the chain of resumed
+    calls returns the offset and the verdict of fresh one-shot calls, the very same object whenever that verdict is
+    not an error, and the same observable object after an error. -/
+theorem resumeRun_eq_oneShotR (P : Parser σ) (Inv : Buf → Nat → σ → Prop) (obs : σ → τ)
+    (hP : ResumableR P Inv obs) (o : Nat) (st : σ) (l : List Buf) (hg : Growing l)
+    (h0 : ∀ b ∈ l.head?, Inv b o st) : RR obs (resumeRun P o st l) (oneShotRun P o st l) := by
+  induction l generalizing o st with
+  | nil => exact RR.refl _ _
+  | cons b rest ih =>
+    cases rest with
+    | nil => exact RR.refl _ _
+    | cons b' rest' =>
+      simp only [resumeRun, oneShotRun]
+      have hI : Inv b o st := h0 b (by simp)
+      rcases hp : P b o st with ⟨o1, e1, s1⟩
+      cases e1 <;> simp only <;> try exact RR.refl _ _
+      have hext := growing_ext hg
+      obtain ⟨s', hs'⟩ := hext b' List.mem_cons_self
+      have hI' : Inv b' o1 s1 := by rw [hs']; exact (hP b s' o st o1 s1 hI hp).2
+      refine RR.trans (ih o1 s1 (growing_tail hg) (by intro x hx; simp at hx; subst hx; exact hI')) ?_
+      apply oneShotRun_congrR P obs o o1 st s1 (b' :: rest') (by simp)
+      intro x hx
+      obtain ⟨s, rfl⟩ := hext x hx
+      exact (hP b s o st o1 s1 hI hp).1
+
 end Sipsp
